@@ -499,9 +499,23 @@ def cid(name):
     return out
 
 class Emitter:
-    def __init__(s, m, stubs, overrides, nsw_checks=False):
+    def __init__(s, m, stubs, overrides, nsw_checks=False, prefix='', keep=()):
         s.m = m; s.stubs = set(stubs); s.overrides = overrides; s.lit = {}; s.out = []; s.nsw = nsw_checks
+        s.prefix = prefix; s.keep = set(keep)
         s.used_types = []; s.seen_named = set()
+
+    def gname(s, name):
+        """C identifier of a module-level symbol; symbols defined in the module (and not stubbed/kept) get the prefix"""
+        c = cid(name)
+        if not s.prefix or name in s.keep: return c
+        if name in s.m.funcs:
+            f = s.m.funcs[name]
+            if f.decl or name in s.stubs: return c
+            return s.prefix + c
+        if name in s.m.globals:
+            if s.m.globals[name][1] is None: return c
+            return s.prefix + c
+        return c
 
     def resolve(s, t):
         while isinstance(t, TNamed):
@@ -589,8 +603,8 @@ class Emitter:
         k = v.kind
         if k == 'reg': return 'v_' + cid(v.name)
         if k == 'glob':
-            if v.name in s.m.funcs: return cid(v.name)
-            return '(&%s)' % cid(v.name)
+            if v.name in s.m.funcs: return s.gname(v.name)
+            return '(&%s)' % s.gname(v.name)
         if k == 'int':
             rt = s.resolve(v.ty)
             n = rt.n if isinstance(rt, TInt) else 64
@@ -609,7 +623,7 @@ class Emitter:
 
     def gep(s, bty, base, idx):
         if idx[0].kind == 'int' and idx[0].val == 0:
-            if base.kind == 'glob' and base.name not in s.m.funcs: e = cid(base.name)
+            if base.kind == 'glob' and base.name not in s.m.funcs: e = s.gname(base.name)
             else: e = '(*%s)' % s.val(base)
         else:
             e = '(*(%s + (int64_t)%s))' % (s.val(base), s.sx(idx[0]))
@@ -688,6 +702,7 @@ class Emitter:
 
     # ---- functions
     def reachable(s, entries):
+        if not hasattr(s, 'gl_used'): s.gl_used = set()
         seen = []; work = list(entries)
         while work:
             f = work.pop()
@@ -737,9 +752,38 @@ class Emitter:
     def proto(s, fn):
         ps = ', '.join(s.cdecl(t, 'v_' + cid(n)) if n else s.cdecl(t) for t, n in fn.params) or 'void'
         if fn.va: ps += ', ...'
-        return s.cdecl(fn.ret, '%s(%s)' % (cid(fn.name), ps))
+        return s.cdecl(fn.ret, '%s(%s)' % (s.gname(fn.name), ps))
+
+    def rpo(s, fn):
+        """reorder blocks in reverse post-order so that only real back-edges are backward gotos"""
+        if getattr(fn, '_rpo', False): return
+        fn._rpo = True
+        bl = {b.label: b for b in fn.blocks}
+        def succ(b):
+            t = b.ins[-1] if b.ins else None
+            out = []
+            for ins in b.ins:
+                if ins.op == 'invoke': out.append(ins.normal)   # unwind edge is cut (assume(false))
+            if t is None: return out
+            if t.op == 'br': out.append(t.dest)
+            elif t.op == 'cbr': out += [t.a, t.b]
+            elif t.op == 'switch': out += [t.default] + [l for _, l in t.cases]
+            return out
+        seen = set(); post = []
+        stack = [(fn.blocks[0], iter(succ(fn.blocks[0])))]
+        seen.add(fn.blocks[0].label)
+        while stack:
+            b, it = stack[-1]
+            adv = False
+            for l in it:
+                if l not in seen:
+                    seen.add(l); nb = bl[l]; stack.append((nb, iter(succ(nb)))); adv = True; break
+            if not adv:
+                post.append(b); stack.pop()
+        fn.blocks = post[::-1]
 
     def emit_func(s, fn):
+        s.rpo(fn)
         o = []
         o.append(s.proto(fn) + '\n{')
         # declare regs
@@ -917,13 +961,13 @@ class Emitter:
                 if n.startswith('llvm.fmuladd'): return '%s(%s * %s + %s);' % (R, A[0], A[1], A[2])
                 if n.startswith('llvm.trap'): return 'LL2C_UNREACHABLE();'
                 raise NotImplementedError(n)
-            fn = cid(c.name)
+            fn = s.gname(c.name)
         else:
             fn = '(%s)' % s.val(c)
         return '%s%s(%s);' % (R, fn, ', '.join(s.val(a) for a in args if a is not None))
 
-    def emit(s, entries):
-        s.gl_used = set()
+    def emit(s, entries, extra_globals=()):
+        s.gl_used = set(extra_globals)
         fl = s.reachable(entries)
         # globals referenced by global initialisers
         work = []
@@ -953,9 +997,9 @@ class Emitter:
             if g not in s.m.globals:
                 continue
             ty, init, const = s.m.globals[g]
-            name = cid(g)
-            if name in s.overrides:
-                gl.append(s.cdecl(ty, name) + ' = ' + s.overrides[name] + ';')
+            name = s.gname(g)
+            if cid(g) in s.overrides:
+                gl.append(s.cdecl(ty, name) + ' = ' + s.overrides[cid(g)] + ';')
             elif init is None:
                 gl.append('extern ' + s.cdecl(ty, name) + ';')
             else:
@@ -989,7 +1033,7 @@ class Emitter:
         for k, (nm, t) in list(s.lit.items()): need(t)
         ext = []
         for g in sorted(s.gl_used):
-            if g in s.m.globals: ext.append('extern ' + s.cdecl(s.m.globals[g][0], cid(g)) + ';')
+            if g in s.m.globals: ext.append('extern ' + s.cdecl(s.m.globals[g][0], s.gname(g)) + ';')
         s.header = '\n'.join(['#include "ll2c_rt.h"'] + fwd + defs + [''] + protos + [''] + ext + [''])
         return '\n'.join(['#include "ll2c_rt.h"'] + fwd + defs + [''] + protos + [''] + gl + [''] + funcs)
 
